@@ -346,7 +346,7 @@ def worker(args):
             if time.time() > deadline:
                 agg['truncated'] = True
                 break
-            faulthandler.dump_traceback_later(120, exit=True)
+            faulthandler.dump_traceback_later(300, exit=True)
             try:
                 res = run_seed(seed, profile, tier, known, scratch, owners)
             except HarnessError as e:
@@ -522,6 +522,7 @@ def isolate_crash(prop, tier, seeds, owners, max_found=2):
     from .profiles import PROFILES
     from .gen import draw_cfg
     found = []
+    completed = []          # seeds whose isolated run ran to its end
     tmp = tempfile.mkdtemp(prefix='verif-wal-')
 
     def one(seed):
@@ -529,12 +530,16 @@ def isolate_crash(prop, tier, seeds, owners, max_found=2):
             return
         wal = os.path.join(tmp, '%d.wal' % seed)
         env = dict(os.environ)
-        r = subprocess.run([sys.executable, os.path.join(VERIF, 'bin',
-                                                         'check.py'), prop,
-                            '--tier', tier, '--isolated', str(seed),
-                            '--wal', wal], env=env, capture_output=True,
-                           text=True, timeout=600)
+        try:
+            r = subprocess.run([sys.executable, os.path.join(VERIF, 'bin',
+                                                             'check.py'),
+                                prop, '--tier', tier, '--isolated', str(seed),
+                                '--wal', wal], env=env, capture_output=True,
+                               text=True, timeout=900)
+        except subprocess.TimeoutExpired:
+            return
         if os.path.exists(wal + '.result'):
+            completed.append(seed)
             # the run completed: an ordinary violation found by it still
             # counts (the crashed pool lost every worker's results)
             try:
@@ -577,4 +582,5 @@ def isolate_crash(prop, tier, seeds, owners, max_found=2):
             list(ex.map(one, seeds))
     finally:
         shutil.rmtree(tmp, ignore_errors=True)
+    isolate_crash.completed = len(completed)
     return found
